@@ -83,6 +83,10 @@ DESC = {
               "an empty interface list (member dropped, deserialization fails)"),
     "C17-3": ("C17", "Request::parameters: skip_serializing_if replaced by #[serde(default)]",
               "a request with parameters: None (serialises \"parameters\":null)"),
+    "C11-1": ("C11", "from_token: the three cross-kind collision checks use X_keys.binary_search(&name).is_ok() instead of contains (keys are in order of appearance, not sorted)",
+              "a cross-kind collision where the earlier kind has at least two members declared in non-alphabetical order"),
+    "C11-2": ("C11", "varlink_grammar.rs rule type_: the three `?` alternatives collapsed into one `? type_` (stacked nullables accepted) -- a GRAMMAR change, outside the claimed slice",
+              "two or more adjacent `?` in a type expression (expected miss: the peg grammar is not under contract)"),
     "C17-1": ("C17", "skip_serializing_if predicate replaced by `flag_is_default` (omit Some(false) like None) on Request/Reply flags",
               "a flag explicitly set to Some(false): round trip yields None; {\"oneway\":false} re-serialises without the member"),
 }
@@ -138,7 +142,7 @@ def main():
                 "None of these changes is ever committed to /repo.  Regenerate the table with `tools/seedrun.py --scratch && tools/seedmeta.py <confirm log>`.\n\n"
                 "| seed | breaks | change | own check | how it is caught | checks reporting VIOLATION | checks UNDECIDED (exit 2, no alarm) |\n|---|---|---|---|---|---|---|\n")
         for r in rows:
-            f.write("| %s | %s | %s | %s | %s | %s | %s |\n" % (r[0], r[1], r[2], {0: "**missed**", 1: "caught", 2: "undecided", None: "?"}.get(r[3], r[3]), r[4], r[5], r[6]))
+            f.write("| %s | %s | %s | %s | %s | %s | %s |\n" % (r[0], r[1], r[2], {0: "**missed**" + (" (outside the claimed slice)" if "outside the claimed slice" in r[2] else ""), 1: "caught", 2: "undecided", None: "?"}.get(r[3], r[3]), r[4], r[5], r[6]))
         f.write("\nA check other than the seed's own that reports VIOLATION does so because the change really breaks that property too (e.g. lost bytes break C01 and C02;\n"
                 "a reply for a oneway request breaks C04 and the reply discipline of C01) -- the replay oracles are per property class so that a routing-only change is\n"
                 "reported by C03 alone and a client-side change by the client obligations it actually breaks.\n")
